@@ -689,9 +689,16 @@ def carried_whole(ctx, body, loops, X, f):
     """field f of the result struct X is `self.f` as a whole — every element, none added: moved / cloned / converted, or
     rebuilt by pushing each item of a loop over self.f on every path (a `filter`, a conditional push, a `take(n)` is not).
     returns (ok, why)"""
-    def whole(bdy, op):
+    def whole(bdy, op, depth=3):
         r, fs, _ = root_of(bdy, op, WHOLE_TRANSPARENT)
-        return r is not None and 1 <= r <= bdy.argc and [x for a_, x in fs] == [f], r
+        if r is not None and 1 <= r <= bdy.argc and [x for a_, x in fs] == [f]: return True, r
+        # a value chosen on different paths (`if .. { A } else { self.f }`, also out of an inlined helper): every definition
+        # must be self.f — a branch that substitutes a constant or anything else is not "carried over"
+        ds = _whole_defs(bdy, r) if r is not None and not (1 <= r <= bdy.argc) and not fs else []
+        if depth and len(ds) >= 2 and all(d_[0] == 'stmt' and d_[2]['rv']['k'] == 'use' and d_[2]['rv']['ops'][0]['k'] in ('copy', 'move') for d_ in ds):
+            rs = [whole(bdy, d_[2]['rv']['ops'][0], depth - 1) for d_ in ds]
+            if all(x[0] for x in rs) and len({x[1] for x in rs}) == 1: return True, rs[0][1]
+        return False, r
     sv = Construction(ctx, body, X, None, None)
     d = _whole_defs(body, X)
     asg = sv.assignments(f)
@@ -1220,10 +1227,51 @@ def open_unzip(ctx, body):
     return nb
 
 
+def open_for_over_bound_iterators(ctx, body):
+    """`let it = base.map(K); for x in it { .. }`: the normal form opens `for x in base.map(K)` but not the same pipeline bound
+    to a local first (the `into_iter` then receives a copy of the adaptor's result).  The copy is looked through and the
+    normal form's own `for` rewrite applied."""
+    from .. import normalize as NZ
+    from ..facts import Body
+    N = NZ.Normalizer(ctx.F, None, True)
+    rw = NZ.Rewriter(body.d); rw.promoted_of = N._promoted_of
+    patched = False
+    for bi in range(len(rw.blocks)):
+        t = rw.blocks[bi]['term']
+        ri = t.get('ri') or {} if t['k'] == 'call' else {}
+        if t['k'] != 'call' or (ri.get('trait') or '') != 'std::iter::IntoIterator' or ri.get('item') != 'into_iter' or not t['args']: continue
+        a = t['args'][0]
+        if a['k'] not in ('copy', 'move') or a['pl']['p']: continue
+        l = a['pl']['l']; hops = 0
+        for _ in range(4):
+            d = rw.single_def(l)
+            if d is not None and d[0] == 'stmt' and d[2]['rv']['k'] == 'use' and d[2]['rv']['ops'][0]['k'] in ('copy', 'move') and not d[2]['rv']['ops'][0]['pl']['p']:
+                l = d[2]['rv']['ops'][0]['pl']['l']; hops += 1
+            else: break
+        d = rw.single_def(l)
+        if hops and d is not None and d[0] == 'call' and ((d[2].get('ri') or {}).get('trait') or '') == 'std::iter::Iterator' and (d[2].get('ri') or {}).get('item') in NZ.CLOSURE_ADAPTORS:
+            t['args'] = [NZ._mv(l)] + list(t['args'][1:]); patched = True
+    if not patched: return body
+    changed = False
+    for bi in range(len(rw.blocks)):
+        t = rw.blocks[bi]['term']
+        ri = t.get('ri') or {} if t['k'] == 'call' else {}
+        if t['k'] == 'call' and not t.get('synthetic') and (ri.get('trait') or '') == 'std::iter::Iterator' and ri.get('item') == 'next' and t.get('desugared') is True:
+            t.pop('desugared', None)
+            try:
+                if N._desugar_for(rw, bi, t): changed = True
+            except Exception:
+                pass
+    if not changed: return body
+    d = dict(rw.d); d['fn'] = body.name + '#eager'; d['parent'] = body.parent
+    nb = Body(d); nb.facts = ctx.F
+    return nb
+
+
 def open_up(ctx, body):
     """the body with directly called local closures inlined, `map` below `enumerate` opened, and lazily mapped iterators
     handed to draining consumers made explicit"""
-    return eagerise(ctx, open_unzip(ctx, open_maps_below_enumerate(ctx, open_result_combinators(ctx, open_counter_loops(ctx, inline_closure_calls(ctx, body))))))
+    return eagerise(ctx, open_unzip(ctx, open_maps_below_enumerate(ctx, open_result_combinators(ctx, open_counter_loops(ctx, open_for_over_bound_iterators(ctx, inline_closure_calls(ctx, body)))))))
 
 
 # `&p * g` is `Linear::from(&p) * g` (parameter.rs): the weight may enter a product as the Parameter itself or converted
@@ -1300,8 +1348,10 @@ def check_method(ctx, name, uniform):
         for f in CARRIED:
             carry('C09.carry/%s/%s' % (name, f), X, f, need_fields=[(INST, f)])
         # .. and the list of variables is carried over *completely* (not only those that are still used somewhere)
-        okw, why = carried_whole(ctx, body, loops, X, 'decision_variables')
-        ctx.check(okw, 'C09.carry/%s/decision_variables/all' % name, 'T-LOOPMUST', fn, 'decision_variables are not carried over as a whole: ' + why, body.site())
+        # (the same for the scalar and message fields: the output field is the input field itself on every path)
+        for f in CARRIED:
+            okw, why = carried_whole(ctx, body, loops, X, f)
+            ctx.check(okw, 'C09.carry/%s/%s/all' % (name, f), 'T-LOOPMUST', fn, '%s is not carried over as a whole: %s' % (f, why), body.site())
         # no active constraints in the result
         carry('C09.carry/%s/constraints' % name, X, 'constraints', not_fields=[(INST, 'constraints'), (INST, 'removed_constraints')])
         # every constraint of the input — already removed ones included — is kept as removed
@@ -1426,15 +1476,25 @@ def check_method(ctx, name, uniform):
                     writes.append(body.site(b2))
             ctx.check(not writes, 'C09.wrap/%s/no-write' % name, 'T-CARRY', fn, 'the constraint is modified inside the loop at %s' % writes, body.site(bi))
             if not uniform:
-                st_ = construction_carry(ctx, 'C09.tags/%s/parameter_id' % name, a, 'removed_reason_parameters',
-                                         need_fields=[('v1::Parameter', 'id')], need_consts=[r'"parameter_id"'])
+                # the value recorded under "parameter_id" is the id of a weight: read from `parameter.id`, or *the same value* the
+                # Parameter built in this iteration got as its id (computed once into a local and used for both)
+                st_ = a.slice('removed_reason_parameters')
+                shared = []
+                for sv_ in paggs:
+                    io_ = sv_.operand('id')
+                    ir_ = root_of(body, io_)[0] if io_ is not None else None
+                    if ir_ is None or sv_.bb not in L.blocks or (1 <= ir_ <= body.argc): continue
+                    for c_ in st_.call_objs:
+                        if c_.item == 'to_string' and c_.bb in L.blocks and c_.args and root_of(body, c_.args[0], REF_TRANSPARENT)[0] == ir_: shared.append(sv_.X)
+                st_ = carry_slice(ctx, 'C09.tags/%s/parameter_id' % name, body, st_, 'field `removed_reason_parameters`',
+                                  [] if shared else [('v1::Parameter', 'id')], (), [r'"parameter_id"'], (), a.site(), ())
                 # the recorded id is the id of this constraint's weight
                 if st_ is not None:
                     # the Parameter values whose `.id` is read for the tag (not every Parameter-typed local of the slice: with
                     # `id: base + parameters.len()` the slice runs through the whole vector and the `..Default::default()` base)
                     idn = [(n[0], n[1]) for n in st_.nodes if isinstance(n, tuple) and len(n) == 2 and isinstance(n[0], int)] + \
                           [(n[1], n[2]) for n in st_.nodes if isinstance(n, tuple) and len(n) == 3 and n[0] == 'k']
-                    cands = sorted({l_ for l_, f_ in idn if f_ == 'id' and PARAM_TY.match(body.locals[l_]) and any(b2 in L.blocks for _, b2, _ in body.defs_of(l_))})
+                    cands = sorted({l_ for l_, f_ in idn if f_ == 'id' and PARAM_TY.match(body.locals[l_]) and any(b2 in L.blocks for _, b2, _ in body.defs_of(l_))} | set(shared))
                     verdicts = [parameter_origin(ctx, body, loops, L, {'k': 'copy', 'pl': {'l': l, 'p': []}}, None) for l in cands]
                     ok = bool(verdicts) and all(v[0] for v in verdicts)
                     ctx.check(ok, 'C09.pair/%s/tag' % name, 'T-CARRY', fn, '"parameter_id" does not name the weight of this constraint: %s' %
@@ -1445,7 +1505,7 @@ def check(ctx):
     check_method(ctx, 'penalty_method', False)
     check_method(ctx, 'uniform_penalty_method', True)
     ctx.floor('C09.cover', 16)
-    ctx.floor('C09.carry', 20)
+    ctx.floor('C09.carry', 28)
     ctx.floor('C09.fresh', 3)
     ctx.floor('C09.wrap', 6)
     ctx.floor('C09.loop', 8)
